@@ -1,4 +1,4 @@
-import PwVerif.Lemmas.Pool
+import PwVerif.Lemmas.PoolK
 /-!
 # C07 — Pool.run yields exactly one result per input under every schedule and death
 
@@ -95,6 +95,31 @@ theorem C07_fifo_agreement (c : Cfg) (hc : Plain c) (pick : List Nat → Option 
     ∀ x ∈ (runEvents c pick (start c pick n src pre) evs).ws, x.closed = false →
       x.ppw = resIn x.chan ++ x.inbox ++ x.lost :=
   fun x hx => ((inv_runEvents hc hp evs _ (inv_start hc hp n src pre)).ws x hx).open_
+
+/-- **C07 the re-dispatch loop always terminates.** In no schedule does `handle_death`'s `while self._retries`
+    loop run out of the fuel `number of workers + 1`: every round hands the head of the retry list to an idle
+    worker or declares that worker dead, so the number of idle workers is a variant (`settle_post`).
+    (With a refusing user `enqueue_fn` this is false: `C07_livelock_witness`.) -/
+theorem C07_redispatch_terminates (c : Cfg) (hc : Plain c) (pick : List Nat → Option Nat) (hp : PickOK pick)
+    (ht : PickTotal pick) (n : Nat) (src : List Inp) (pre evs : List Ev) :
+    (runEvents c pick (start c pick n src pre) evs).err ≠ some .outOfFuel :=
+  fuelOK_runEvents hc hp ht evs _ (fuelOK_start hc hp ht n src pre)
+
+/-- **C07 never an internal error**: the run can only be waiting, return, or raise PoolError. -/
+theorem C07_never_internal (c : Cfg) (hc : Plain c) (pick : List Nat → Option Nat) (hp : PickOK pick)
+    (ht : PickTotal pick) (n : Nat) (src : List Inp) (pre evs : List Ev) (e : Err) :
+    outcome (runEvents c pick (start c pick n src pre) evs) ≠ .internal e := by
+  have h1 := C07_no_internal_error c hc pick hp n src pre evs
+  have h2 := C07_redispatch_terminates c hc pick hp ht n src pre evs
+  generalize runEvents c pick (start c pick n src pre) evs = s at h1 h2
+  unfold outcome
+  cases he : s.err with
+  | some e' => cases e' <;> simp_all
+  | none =>
+    simp only
+    split
+    · simp
+    · split <;> simp
 
 theorem pickFirst_ok : PickOK pickFirst := by
   intro l w h
